@@ -435,22 +435,87 @@ Definition real_used (orig_used : devres) (v : ledger) : list nat :=
    Device CR carries topology information (and the request is not multi-GPU shared), otherwise
    defaultAllocateDevices. *)
 Definition desired_count (count : Z) : nat := if count =? 0 then 1%nat else Z.to_nat count.
+(* ---------- GPU partitions (allocateByPartition, selectPartitionByBinPack) with the built-in table of
+   the NVIDIA Hopper models (GPUPartitionIndexOfNVIDIAHopper): partitions of 1, 2, 4 and 8 GPUs *)
+Definition hopper_table (n : nat) : option (list (list nat)) :=
+  match n with
+  | 1 => Some [[0]; [1]; [2]; [3]; [4]; [5]; [6]; [7]]
+  | 2 => Some [[0; 1]; [2; 3]; [4; 5]; [6; 7]]
+  | 4 => Some [[0; 1; 2; 3]; [4; 5; 6; 7]]
+  | 8 => Some [[0; 1; 2; 3; 4; 5; 6; 7]]
+  | _ => None
+  end%nat.
+Definition has_part_table (kind : Z) : bool := (kind =? 1) || (kind =? 2).
+Definition honor_part (kind : Z) : bool := kind =? 1.
+Definition part_weight (n : nat) : Z :=
+  match n with 8%nat => 10000 | 4%nat => 100 | 2%nat => 1 | _ => 0 end.
+Definition disjointb (a b : list nat) : bool := negb (existsb (fun m => memn m b) a).
+(* a partition is feasible when none of its GPUs is in use and all of them have a non-zero total *)
+Definition part_feasible (c : topo_ctx) (p : list nat) : bool :=
+  disjointb p (tc_used c)
+  && forallb (fun m => match dget (total (tc_view c)) m with
+                       | Some g => negb (ris_zero g) | None => false end) p.
+Definition binpack_score (used : list nat) (desired : nat) (f : list nat) : Z :=
+  sumZ (map (fun n => if Nat.ltb n desired then 0
+                      else match hopper_table n with
+                           | Some ps => part_weight n *
+                                        Z.of_nat (length (filter (fun q => disjointb q (used ++ f)) ps))
+                           | None => 0
+                           end) [8; 4; 2]%nat).
+Definition select_part (used : list nat) (desired : nat) (fs : list (list nat)) : list nat :=
+  match fs with
+  | [] => []
+  | [f] => f
+  | f0 :: rest =>
+      fst (fold_left (fun b f => let sc := binpack_score used desired f in
+                                 if snd b <? sc then (f, sc) else b)
+                     rest (f0, binpack_score used desired f0))
+  end.
+Inductive part_result := PNone | PFail | PSome (minors : list nat).
+Definition part_alloc (kind : Z) (c : topo_ctx) : part_result :=
+  let r := if tc_shared c then PNone
+           else if negb (has_part_table kind) then PFail
+           else match hopper_table (tc_n c) with
+                | None => PFail
+                | Some ps => match filter (part_feasible c) ps with
+                             | [] => PFail
+                             | fs => PSome (select_part (tc_used c) (tc_n c) fs)
+                             end
+                end in
+  if honor_part kind then r else match r with PFail => PNone | _ => r end.
+(* honoured partitions and a GPU count the table has no partitions for: UnschedulableAndUnresolvable *)
+Definition part_unsupported (kind : Z) (r : treq) : bool :=
+  match r with
+  | TReq _ count shared =>
+      honor_part kind && negb shared
+      && match hopper_table (desired_count count) with None => true | Some _ => false end
+  | _ => false
+  end.
+
 (* [l] is the ledger the allocator looks at (only its total and free matter), [orig_used] the
    node's real deviceUsed (for getRealUsed) *)
-Definition alloc_core (scored : bool) (infos : list devinfo) (t : nat) (orig_used : devres)
+Definition alloc_core (kind : Z) (scored : bool) (infos : list devinfo) (t : nat) (orig_used : devres)
            (l : ledger) (per : res) (count : Z) (shared : bool) : option (list alloc) :=
   let v := filter_view l (minors_of infos t) in
   let desired := desired_count count in
-  if Nat.eqb t 0 && gpu_topo_ok infos && negb (shared && (1 <? count)) then
-    let c := mkCtx desired shared scored per v (build_total infos 0) (real_used orig_used v) in
-    match root_alloc c (root_minors infos) (numa_scopes infos) with
-    | Some r => Some (map (fun m => (m, per)) (sr_minors r))
-    | None => None
+  let c := mkCtx desired shared scored per v (build_total infos 0) (real_used orig_used v) in
+  let general :=
+    if Nat.eqb t 0 && gpu_topo_ok infos && negb (shared && (1 <? count)) then
+      match root_alloc c (root_minors infos) (numa_scopes infos) with
+      | Some r => Some (map (fun m => (m, per)) (sr_minors r))
+      | None => None
+      end
+    else default_allocate t scored v per desired desired in
+  if Nat.eqb t 0 then
+    match part_alloc kind c with
+    | PSome ms => Some (map (fun m => (m, per)) ms)
+    | PFail => None
+    | PNone => general
     end
-  else default_allocate t scored v per desired desired.
-Definition alloc_type (scored : bool) (ls : list ledger) (infos : list devinfo) (t : nat)
+  else general.
+Definition alloc_type (kind : Z) (scored : bool) (ls : list ledger) (infos : list devinfo) (t : nat)
            (per : res) (count : Z) (shared : bool) : option (list alloc) :=
-  alloc_core scored infos t (used (ledger_of ls t)) (ledger_of ls t) per count shared.
+  alloc_core kind scored infos t (used (ledger_of ls t)) (ledger_of ls t) per count shared.
 
 (* ---------- Filter during a preemption dry-run: the victims' holdings count as free
    (calcFreeWithPreemptible without required resources, nodeDevice.filter on that free) *)
@@ -475,10 +540,10 @@ Definition preempt_of (l : ledger) (victims : list Z) : devres :=
 (* the ledger as the dry-run sees it: the victims' holdings count as free *)
 Definition preempt_ledger (l : ledger) (victims : list Z) : ledger :=
   mkLedger (total l) (calc_free l (preempt_of l victims)) [] [].
-Definition alloc_type_on (ls : list ledger) (infos : list devinfo) (t : nat)
+Definition alloc_type_on (kind : Z) (ls : list ledger) (infos : list devinfo) (t : nat)
            (per : res) (count : Z) (shared : bool) (victims : list Z) : option (list alloc) :=
   let l := ledger_of ls t in
-  alloc_core false infos t (used l) (preempt_ledger l victims) per count shared.
+  alloc_core kind false infos t (used l) (preempt_ledger l victims) per count shared.
 
 Inductive alloc_result :=
 | ASkip | AFail (code : Z) | ADone (da : dallocs).
@@ -486,16 +551,17 @@ Inductive alloc_result :=
 Definition is_req (r : treq) : bool := match r with TReq _ _ _ => true | _ => false end.
 Definition is_invalid (r : treq) : bool := match r with TInvalid => true | _ => false end.
 
-Definition allocate (ls : list ledger) (infos : list devinfo) (rq : rawreq) : alloc_result :=
+Definition allocate (kind : Z) (ls : list ledger) (infos : list devinfo) (rq : rawreq) : alloc_result :=
   let reqs := map (treq_of rq) type_ids in
   if existsb is_invalid reqs then AFail c_unresolvable            (* PreFilter *)
   else if negb (existsb is_req reqs) then ASkip                   (* PreFilter: nothing requested *)
   else if existsb (fun t => is_req (treq_of rq t) &&
                             dis_empty (total (ledger_of ls t))) type_ids
        then AFail c_unresolvable                                  (* Prepare: no device of the type *)
+  else if part_unsupported kind (treq_of rq 0) then AFail c_unresolvable
   else
     let per_type := map (fun t => match treq_of rq t with
-                                  | TReq per count sh => Some (alloc_type true ls infos t per count sh)
+                                  | TReq per count sh => Some (alloc_type kind true ls infos t per count sh)
                                   | _ => None end) type_ids in
     if existsb (fun o => match o with Some None => true | _ => false end) per_type
     then AFail c_unsched
@@ -507,15 +573,16 @@ Definition allocate (ls : list ledger) (infos : list devinfo) (rq : rawreq) : al
       end.
 
 (* PreFilter, RemovePod for every victim, Filter: only the verdict is produced *)
-Definition preempt_verdict (ls : list ledger) (infos : list devinfo) (rq : rawreq) (victims : list Z) : Z :=
+Definition preempt_verdict (kind : Z) (ls : list ledger) (infos : list devinfo) (rq : rawreq) (victims : list Z) : Z :=
   let reqs := map (treq_of rq) type_ids in
   if existsb is_invalid reqs then c_unresolvable
   else if negb (existsb is_req reqs) then c_skip
   else if existsb (fun t => is_req (treq_of rq t) && dis_empty (total (ledger_of ls t))) type_ids
        then c_unresolvable
+  else if part_unsupported kind (treq_of rq 0) then c_unresolvable
   else if existsb (fun t => match treq_of rq t with
                             | TReq per count sh =>
-                                match alloc_type_on ls infos t per count sh victims with
+                                match alloc_type_on kind ls infos t per count sh victims with
                                 | None => true | Some _ => false end
                             | _ => false end) type_ids
        then c_unsched
@@ -527,10 +594,11 @@ Record state := mkState {
   infos : list devinfo;                        (* nodeDevice.deviceInfos *)
   envrec : list (Z * (dallocs * bool));        (* environment: bound pods, their recorded
                                                   annotation, scheduled here? *)
-  envlast : list (Z * dallocs)                 (* environment: last annotation of pods that are gone *)
+  envlast : list (Z * dallocs);                (* environment: last annotation of pods that are gone *)
+  nkind : Z     (* node labels: 0 none, 1 GPU model H800 + partition policy Honor, 2 GPU model H800 *)
 }.
 Definition init_state : state :=
-  mkState [empty_ledger; empty_ledger; empty_ledger] [] [] [].
+  mkState [empty_ledger; empty_ledger; empty_ledger] [] [] [] 0.
 
 Fixpoint lookup {A} (p : Z) (l : list (Z * A)) : option A :=
   match l with [] => None | (q, v) :: t => if q =? p then Some v else lookup p t end.
@@ -552,7 +620,8 @@ Inductive op :=
 | ODeviceDelete
 | OPodUpdate (p : Z) (al : list (nat * alloc))
 | OPodTerminated (p : Z)
-| OPreemptFilter (p : Z) (rq : rawreq) (victims : list Z).
+| OPreemptFilter (p : Z) (rq : rawreq) (victims : list Z)
+| ONodeKind (kind : Z).
 
 Definition is_schedule_op (o : op) : bool := match o with OSchedule _ _ => true | _ => false end.
 
@@ -564,24 +633,24 @@ Definition refresh (s : state) (inv : list devinfo) : list ledger :=
   map (fun t => ledger_reset_total (ledger_of (ledgers s) t) (build_total inv t)) type_ids.
 
 Definition forget (s : state) (p : Z) (da : dallocs) (ls : list ledger) : state :=
-  mkState ls (infos s) (remove_key p (envrec s)) (set_key p da (envlast s)).
+  mkState ls (infos s) (remove_key p (envrec s)) (set_key p da (envlast s)) (nkind s).
 
 Definition step (s : state) (o : op) : state * opout :=
   match o with
   | ORefresh inv =>
-      (mkState (refresh s inv) inv (envrec s) (envlast s), out_code 0)
+      (mkState (refresh s inv) inv (envrec s) (envlast s) (nkind s), out_code 0)
   | ODeviceDelete =>
-      (mkState (refresh s (map unhealthy (infos s))) (infos s) (envrec s) (envlast s), out_code 0)
+      (mkState (refresh s (map unhealthy (infos s))) (infos s) (envrec s) (envlast s) (nkind s), out_code 0)
   | OSchedule p rq =>
       match lookup p (envrec s) with
       | Some _ => (s, out_code (-1))
       | None =>
-          match allocate (ledgers s) (infos s) rq with
+          match allocate (nkind s) (ledgers s) (infos s) rq with
           | ASkip => (s, out_code c_skip)
           | AFail c => (s, out_code c)
           | ADone da =>
               (mkState (cache_update true (ledgers s) p da) (infos s)
-                       (set_key p (da, true) (envrec s)) (envlast s), mkOut c_ok da)
+                       (set_key p (da, true) (envrec s)) (envlast s) (nkind s), mkOut c_ok da)
           end
       end
   | OUnreserve p =>
@@ -592,7 +661,7 @@ Definition step (s : state) (o : op) : state * opout :=
   | OPodAdd p =>
       match lookup p (envrec s) with
       | Some (da, _) =>
-          (mkState (cache_update true (ledgers s) p da) (infos s) (envrec s) (envlast s), out_code 0)
+          (mkState (cache_update true (ledgers s) p da) (infos s) (envrec s) (envlast s) (nkind s), out_code 0)
       | None => (s, out_code (-1))
       end
   | OPodDelete p =>
@@ -600,7 +669,7 @@ Definition step (s : state) (o : op) : state * opout :=
       | Some (da, _) => (forget s p da (cache_update false (ledgers s) p da), out_code 0)
       | None =>
           let da := match lookup p (envlast s) with Some d => d | None => no_allocs end in
-          (mkState (cache_update false (ledgers s) p da) (infos s) (envrec s) (envlast s),
+          (mkState (cache_update false (ledgers s) p da) (infos s) (envrec s) (envlast s) (nkind s),
            out_code (-1))
       end
   | OPodTerminated p =>
@@ -614,10 +683,12 @@ Definition step (s : state) (o : op) : state * opout :=
       | None =>
           let da := group_allocs al in
           (mkState (cache_update true (ledgers s) p da) (infos s)
-                   (set_key p (da, false) (envrec s)) (envlast s), out_code 0)
+                   (set_key p (da, false) (envrec s)) (envlast s) (nkind s), out_code 0)
       end
   | OPreemptFilter p rq victims =>
-      (s, out_code (preempt_verdict (ledgers s) (infos s) rq victims))
+      (s, out_code (preempt_verdict (nkind s) (ledgers s) (infos s) rq victims))
+  | ONodeKind kind =>
+      (mkState (ledgers s) (infos s) (envrec s) (envlast s) kind, out_code 0)
   | OPodUpdate p al =>
       match lookup p (envrec s) with
       | None => (s, out_code (-1))
@@ -625,7 +696,7 @@ Definition step (s : state) (o : op) : state * opout :=
           let da := group_allocs al in
           let ls1 := cache_update false (ledgers s) p old in
           (mkState (cache_update true ls1 p da) (infos s)
-                   (set_key p (da, false) (envrec s)) (envlast s), out_code 0)
+                   (set_key p (da, false) (envrec s)) (envlast s) (nkind s), out_code 0)
       end
   end.
 
